@@ -35,25 +35,31 @@ CLAIMS = {
              'of its stream format. That every reachable state satisfies the labelling is explored on libadm\'s snapshots.',
         design='8 C11'),
     'C14': dict(
-        technique='Rocq proof that the steps of reassignIds change IDs only and that the numbering loop is dense (partial) + '
-                  'differential run with canonical-numbering, unchanged-reserved/silent and idempotence oracles',
+        technique='Rocq proof that the complete reassignIds changes IDs only (every outcome) and that the numbering loop is '
+                  'dense (which numbers the other kinds get: partial) + differential run with canonical-numbering, '
+                  'unchanged-reserved/silent and idempotence oracles',
         text='Partial. Proved (Props/Properties_C14.v, Heap/Reassign.v) for every outcome: set(Id) on an element whose ID is '
              'neither reserved nor silent, the undefine pass and reassignBlockFormats keep kind, parent, type, every '
              'reference list, times, parameters, block times and payloads and the documents, and keep protected IDs; the '
              'numbering loop for programmes, contents and objects gives next, next+1, ... in document order to exactly the '
-             'elements outside the reserved range and leaves the others unchanged. The composition for pack, stream, channel '
-             'and track formats and track UIDs, uniqueness and idempotence are decided by the differential run.',
+             'elements outside the reserved range and leaves the others unchanged; the complete function (pack formats, the '
+             'stream / channel / track format section, track UIDs included) is proved by a Hoare-style traversal '
+             '(Heap/ReassignFull.v) to change IDs and block IDs only, for every outcome, from every well-formed state. Which '
+             'numbers pack, stream, channel, track formats and track UIDs receive, uniqueness and idempotence are decided by '
+             'the differential run.',
         design='8 C14'),
     'C16': dict(
-        technique='Rocq proof of the block rewrite, of exact contiguity for decimal times and of the no-change-on-failure '
-                  'clause (partial for fractional arithmetic) + differential run on structured scenes with an exact-fraction oracle',
+        technique='Rocq proof of the block rewrite, of exact rational contiguity (decimal and fractional times) and of the '
+                  'no-change-on-failure clause + differential run on structured scenes with an exact-fraction oracle',
         text='Proved (Props/Properties_C16.v, Heap/Durations.v) for all inputs: fix_blocks keeps number, IDs, rtimes and payloads '
              'of the blocks and gives each block the difference to the next rtime (the last: to the total) or keeps an old '
              'duration equal to it as a normalised fraction (representation kept); for decimal times the differences are '
              'exact and the timeline is contiguous and ends at the total; any failure while the effective durations are '
              'computed (ambiguity between objects or programmes, contradiction with the file length, nothing to derive a '
-             'length from) returns the state unchanged. Partial: contiguity as rational equality for fractional times '
-             'depends on the gcd normalisation, compared with libadm by the run only.',
+             'length from) returns the state unchanged; the rational arithmetic (normalisation, subtractTimes, timesEqual) is '
+             'exact, so for fractional times too each duration equals, as a fraction, the next rtime minus the own rtime and '
+             'the last block ends at the total. Outside the theorems: the choice of the effective total (model phase 1, '
+             'compared with libadm by the run) and 64-bit overflow of boost::rational.',
         design='8 C16'),
     'C18': dict(
         technique='Rocq proof that the route tracer model returns exactly the reference paths, each once + extracted-model/'
